@@ -141,6 +141,14 @@ impl SpaceDescriptor {
     }
 }
 
+/// Verification hook (feature `verif`): the raw encoded value, for `util::verif::c31`.
+#[cfg(feature = "verif")]
+impl SpaceDescriptor {
+    pub(crate) fn verif_raw(self) -> usize {
+        self.0
+    }
+}
+
 #[cfg(test)]
 mod tests {
     use super::*;
